@@ -97,6 +97,8 @@ OPS = _c.OrderedDict([
     ('render_pg', ('render', 'select cast(a as int) from t order by a desc nulls last', 'postgresql')),
     ('render_create', ('render', 'create table t (a serial, b int)', 'mysql')),
     ('render_fallback', ('render', 'select cast(a as foo) from t', 'mysql')),
+    ('render_pg_fallback', ('render', 'select t1.`select`, t1.`a b` from t1 right join t2 on t1.id = t2.id', 'postgresql')),
+    ('render_pg_fallback2', ('render', 'select cast(`group by` as foo) from `table`', 'postgres')),
     # one metadata list without integration_name, used by planners with different predictor namespaces
     ('plan_ns_mindsdb', ('plan_ns', 'select * from int1.t1 join mindsdb.pred', 'mindsdb')),
     ('plan_ns_proj2', ('plan_ns', 'select * from int1.t1 join proj2.pred', 'proj2')),
@@ -112,6 +114,7 @@ PAIRS = [
     ('render_mysql_1', 'render_mysql_2'), ('render_mysql_1', 'render_create'), ('render_pg', 'render_mysql_2'), ('parse_mdb_1', 'plan_join'),
     ('render_fallback', 'render_mysql_1'), ('plan_err', 'plan_join'), ('parse_mdb_1', 'parse_mdb_1'), ('plan_model_sel_v1', 'plan_model_sel_v2'),
     ('plan_model_sel_v1', 'plan_ts'),
+    ('render_pg_fallback', 'print_kw'), ('render_pg_fallback', 'render_fallback'), ('render_pg_fallback2', 'print_kw'), ('render_pg_fallback', 'plan_join'),
 ]
 TRIPLES = [('parse_mdb_1', 'parse_mdb_2', 'parse_mdb_err'), ('plan_model_v1', 'plan_model_v2', 'plan_join'), ('render_mysql_1', 'render_mysql_2', 'print_kw')]
 
@@ -394,6 +397,10 @@ class CHECK(Check):
                 seen_p.add(key)
                 uniq.append((sql, kw))
         self.order_plans = uniq
+        # the same corpus under the catalog without a default namespace (references from clean processes again)
+        histories.CATALOG_KIND = 'no_default'
+        self.href_nd = histories.references(self.hcorpus)
+        histories.CATALOG_KIND = 'rich'
         self.rops = histories.render_ops()
         self.rref = histories.render_references(self.rops)
         # warm imports (SLY builds the tables at import time; that must not run under the scheduler)
@@ -428,6 +435,7 @@ class CHECK(Check):
         for i in range(len(self.hcorpus)):
             out.append(('pairs', 'process', i))
             out.append(('pairs', 'reuse', i))
+            out.append(('pairs', 'reuse_nodefault', i))
         for i in range(len(self.rops)):
             out.append(('rpairs', i))
         # read-only calls on the caller's tree (printing, comparing, copying, walking) before it is planned / rendered
@@ -620,16 +628,25 @@ class CHECK(Check):
         from vf import histories
         first = self.hcorpus[i]
         bad = None
+        href = self.href
+        if kind == 'reuse_nodefault':
+            histories.CATALOG_KIND = 'no_default'
+            href = self.href_nd
         for j, second in enumerate(self.hcorpus):
-            planner = histories.new_planner() if kind == 'reuse' else None
+            planner = histories.new_planner() if kind.startswith('reuse') else None
             o1 = histories.observe(first, planner)[0]
             o2 = histories.observe(second, planner)[0]
             res.count('pair_histories')
-            if o1 != self.href[i] and bad is None:
-                bad = ('first', i, i, o1, self.href[i])
-            if o2 != self.href[j] and bad is None:
-                bad = ('second', i, j, o2, self.href[j])
+            if o1 != href[i] and bad is None:
+                bad = ('first', i, i, o1, href[i])
+            if o2 != href[j] and bad is None:
+                bad = ('second', i, j, o2, href[j])
         res.key(('pairs', kind, i))
+        if bad is not None and kind == 'reuse_nodefault':
+            which, i, j, got, want = bad
+            hist = [self.hcorpus[i]] if which == 'first' else [self.hcorpus[i], self.hcorpus[j]]
+            res.violation('history-changes-result|reuse|catalog-without-default-namespace', f'one QueryPlanner (catalog without default namespace) used for {hist!r}: the last call observed {str(got)[:400]!r} instead of {str(want)[:400]!r}')
+            return res
         if bad is not None:
             which, i, j, got, want = bad
             hist = [self.hcorpus[i]] if which == 'first' else [self.hcorpus[i], self.hcorpus[j]]
